@@ -39,7 +39,7 @@ THEOREMS = {"Artap.Props.C08": [
 AXIOMS_OK = FLOAT_AXIOMS
 # second tie to the code (tools/py2coq.py + coq/theories/GenProofs): the source of Operator.clip and of VectorAndNumbers.gen_number (uniform / real branch) is translated on every run and proved equal to Model/Variation.v clip / gen_number
 from harness.core import translated_specs
-TRANSLATED = translated_specs("ClipGen", "GenNumberGen", "VariationGen")
+TRANSLATED = translated_specs("ClipGen", "GenNumberGen", "VariationGen", "GenNumberIntGen")
 TRUSTED = [
     "Coq 8.16.1 kernel, vm_compute for model evaluation (no native_compute)",
     "FloatAxioms.ltb_spec / eqb_spec and the primitive float operations (standard library) for the float order instance",
